@@ -123,3 +123,54 @@ Example c08_nonvacuous_session :
   begin_write_allowed (drun d_open [DCommit true]) = true /\
   begin_write_allowed (drun d_open [DCommit false; DCommit true]) = false.
 Proof. vm_compute. repeat split; reflexivity. Qed.
+
+(* ================================================================== the cache layer under backend faults
+   Model Storage/Cache.v of PagedCachedFile / the write buffer over CheckedBackend (this file's latch) and a byte-array
+   backend whose every call may fail (oracle), see Props/C02.v for what is modelled and the usage protocol.
+   `run_track` runs the model, the usage protocol and the plain byte array side by side; a call that returned an
+   error counts as not made.  Tied to the code by harness bin `cachecorr faults` (props/cache_common.py). *)
+From RV Require Import Base.Bytes Storage.Backend Storage.Cache Storage.CacheInv Storage.CacheP.
+
+(* whatever fails (required or best-effort calls), whatever is evicted: in every reachable state the latest content
+   of every byte (outside a live WritablePage and outside ranges whose write was cancelled/discarded) is in the
+   write buffer or in the backend -- no committed, buffered page ever disappears *)
+Theorem c08_cache_no_lost_page_under_faults : forall c f p s g I out,
+  run_track c (init_state f) (g_init (blen f)) (image_of f) p = Some (s, g, I, out) ->
+  forall i, ~ undefined_byte g i -> latest_ok s I i.
+Proof. exact no_lost_page_under_faults. Qed.
+
+(* one call in a reachable state, whatever fails: it does not panic; an Ok result is the plain array's answer; the
+   latch is set exactly when a REQUIRED backend call failed, and then the call reports an error; failures of
+   best-effort writebacks alone change neither the latch nor the result; once latched nothing reaches the backend *)
+Theorem c08_cache_fault_call_sound : forall c f p s g I out x o g' s' t r,
+  run_track c (init_state f) (g_init (blen f)) (image_of f) p = Some (s, g, I, out) ->
+  proto_step c g x = Some g' -> step c s x o = (s', t, r) ->
+  r <> Panic /\ (res_is_err r = false -> spec_res I x r) /\
+  io_failed (latch s') = io_failed (latch s) || req_failed t /\ closed (latch s') = closed (latch s) /\
+  (io_failed (latch s) = true -> t = []) /\
+  (io_failed (latch s) = false -> req_failed t = false -> res_is_err r = false /\ io_failed (latch s') = false) /\
+  (req_failed t = true -> res_is_err r = true /\ io_failed (latch s') = true).
+Proof. exact fault_call_sound. Qed.
+
+(* ---- non-vacuity: 4-byte pages, budget 7 bytes; a failing best-effort writeback, then a failing required eviction *)
+Definition c08_cache_prog : list (Cache.op * oracle) :=
+ [ (OWrite 0 4 true, o_none); (ODrop 0 [1;1;1;1], o_none); (OBarrier, o_none);
+   (ORead 8 4 HClean, mkO [] [] [] [] [true; false]);   (* the read succeeds, the best-effort writeback of page 0 fails *)
+   (ORead 0 4 HClean, o_none);                            (* page 0 is still served from the buffer *)
+   (OCheckIo, o_none);                                    (* not latched *)
+   (OWrite 4 4 true, mkO [] [] [] [] [false]);            (* over half: the REQUIRED eviction of page 0 fails: Err, latched *)
+   (ORead 0 4 HNone, o_none);                             (* the page was put back into the buffer *)
+   (ORead 12 4 HClean, o_none); (OCheckIo, o_none) ].     (* everything that needs the backend is refused *)
+Example c08_cache_nonvacuous :
+  let f : bytes := [0;1;2;3;4;5;6;7;8;9;10;11;12;13;14;15;16;17;18;19;20;21;22;23] in
+  match run_track (mkC 4 7) (init_state f) (g_init 24) (image_of f) c08_cache_prog with
+  | Some (s, g, _, out) =>
+      out = [([], Data [0;0;0;0]); ([], Done); ([], Done);
+             ([mkEv (BRead 8 4) true false; mkEv (BWrite 0 [1;1;1;1]) false true], Data [8;9;10;11]);
+             ([], Data [1;1;1;1]); ([], Done);
+             ([mkEv (BWrite 0 [1;1;1;1]) false false], Err RIo);
+             ([], Data [1;1;1;1]); ([], Err RPreviousIo); ([], Err RPreviousIo)] /\
+      wb s = [(0, Some [1;1;1;1])] /\ cpb s = true /\ io_failed (latch s) = true /\ file s = f
+  | None => False
+  end.
+Proof. vm_compute. repeat split; reflexivity. Qed.
